@@ -52,3 +52,5 @@ import PandoraModel.Properties.C02Kernels
 #print axioms Pandora.C02Kernels.pointInterval_eq_nonempty
 #print axioms Pandora.C02Kernels.pointInterval_mem_p
 #print axioms Pandora.C02Kernels.pointInterval_q_of_p
+#print axioms Pandora.C02Kernels.dspIndex_eq
+#print axioms Pandora.C02Kernels.dspIndex_toNat
